@@ -353,6 +353,21 @@ func registerReflect(in map[string]intrinsic) {
 		p.store(r.addr, sl[:p.concretize(n, "SetLen")])
 		return nil
 	})
+	val("Slice", func(p *Path, r *rval, a []value) value {
+		sl, isSlice := p.rget(r).([]value)
+		if !isSlice {
+			p.reflectPanic("call of reflect.Value.Slice on " + kindOf(r.t).String() + " Value (only slices are modelled)")
+		}
+		i, j := a[0].(*Term), a[1].(*Term)
+		// 0 <= i <= j <= cap, as signed ints
+		ok := p.tc.And(p.tc.Bin(OSLe, Const(BV(64), 0), i), p.tc.And(p.tc.Bin(OSLe, i, j), p.tc.Bin(OSLe, j, Const(BV(64), uint64(cap(sl))))))
+		if !p.branch(ok) {
+			p.reflectPanic("reflect.Value.Slice: slice index out of bounds")
+		}
+		lo := int(p.concretize(i, "reflect Slice low"))
+		hi := int(p.concretize(j, "reflect Slice high"))
+		return &rval{t: r.t, v: sl[lo:hi:cap(sl)], ro: r.ro}
+	})
 	val("Convert", func(p *Path, r *rval, a []value) value {
 		t := rtypeArg(p, a[0])
 		if !types.ConvertibleTo(r.t, t) {
